@@ -313,7 +313,15 @@ fn empty_docs(rng: &mut Rng, m: &mut MMappings) {
 /// a comment different from `d` (Some) — in every way two comments can differ, not only by a suffix
 fn other_doc(rng: &mut Rng, d: &Option<S>) -> S {
 	let s = d.clone().unwrap_or_default();
-	let v: S = match rng.below(8) {
+	let v: S = match rng.below(15) {
+		// comments that a normalising comparison (lines(), trim, case folding, NFC …) would call equal
+		8 => { let mut t = s.clone(); t.push('\n' as u32); t }                        // one trailing line break
+		9 => { let mut t = s.clone(); t.push('\r' as u32); t.push('\n' as u32); t }   // trailing CR LF
+		10 => { let mut t: S = vec![]; for &c in &s { if c == '\n' as u32 { t.push('\r' as u32); } t.push(c); } if t == s { t.push('\r' as u32); } t } // LF -> CR LF
+		11 => { let mut t = vec![' ' as u32]; t.extend(&s); t }                      // leading blank
+		12 => { let mut t = s.clone(); t.push('\t' as u32); t }                      // trailing TAB
+		13 => { let mut t = s.clone(); t.push(0x2003); t }                           // trailing EM SPACE
+		14 => { let mut t: S = vec![]; for &c in &s { t.push(c); if c == '\n' as u32 { t.push('\n' as u32); } } if t == s { t.insert(0, '\n' as u32); } t } // blank line inserted / leading line break
 		0 => { let mut t = s.clone(); t.push('!' as u32); t }                         // suffix
 		1 => { let mut t = vec!['!' as u32]; t.extend(&s); t }                        // prefix
 		2 => vec![],                                                                  // empty against non-empty
